@@ -432,7 +432,8 @@ def stg_bp(stg, ax, b, cols=None):
     raise ValueError(k)
 
 
-def amplitude_bound(ax, sig):
+def amplitude_parts(ax, sig):
+    """Nominal bounds of the three factors: (time profile, bandpass, frequency profile)."""
     t = sig['t']
     lvl = float(t.get('level', 1.0))
     a = lvl * (1 + abs(t.get('amp', 0.0)) + abs(t.get('a', 0.0)))
@@ -441,6 +442,11 @@ def amplitude_bound(ax, sig):
     b = sig['bp']
     bpmax = 1.0 if b['kind'] == 'none' else max(abs(b.get('level', 1.0)), 1 + abs(b.get('a', 0.0)))
     fmax = 1.5 if sig['f']['kind'] == 'multiple_gaussian' else 1.0
+    return a, bpmax, fmax
+
+
+def amplitude_bound(ax, sig):
+    a, bpmax, fmax = amplitude_parts(ax, sig)
     return a * bpmax * fmax
 
 
@@ -558,8 +564,11 @@ def reference(stg, ax, sig, opts, ts_eval=None, cache=None, ax_fn=None):
             near |= np.abs(d - e) < eps
         excl = excl | near.any(axis=(2, 3))
     # scale with the magnitude actually reached (time-growing custom profiles at unix-scale times exceed the nominal bound)
+    # ... and with the magnitude the time profile reaches in each row: an error of the frequency profile (a centre
+    # frequency known to a few ulps) is multiplied by it even where the profile value itself, hence the pixel, is tiny
     amp = amplitude_bound(ax, sig)
-    tol = tolerance(ax, sig, n_smear=n_s if smear else 0) * np.maximum(1.0, np.abs(exp) / amp)
+    a_t = amplitude_parts(ax, sig)[0]
+    tol = tolerance(ax, sig, n_smear=n_s if smear else 0) * np.maximum(1.0, np.maximum(np.abs(exp) / amp, (np.abs(tp) / a_t)[:, None]))
     return exp, tol, excl
 
 
